@@ -1,0 +1,55 @@
+//go:build verif
+
+/*
+ * Copyright 2022 The Furiko Authors.
+ *
+ * Licensed under the Apache License, Version 2.0 (the "License");
+ * you may not use this file except in compliance with the License.
+ * You may obtain a copy of the License at
+ *
+ *     http://www.apache.org/licenses/LICENSE-2.0
+ *
+ * Unless required by applicable law or agreed to in writing, software
+ * distributed under the License is distributed on an "AS IS" BASIS,
+ * WITHOUT WARRANTIES OR CONDITIONS OF ANY KIND, either express or implied.
+ * See the License for the specific language governing permissions and
+ * limitations under the License.
+ */
+
+package configloader
+
+import (
+	"context"
+
+	"k8s.io/client-go/informers"
+	"k8s.io/client-go/tools/cache"
+)
+
+// This file is only compiled with the "verif" build tag. It lets an external
+// verification harness run the informer-backed loaders on informers that it
+// drives synchronously, instead of the goroutine-backed shared informer factory
+// that Start creates. No existing behaviour is changed.
+
+// VerifStartWithInformer is Start, except that the event handlers are
+// registered on the given informer instead of one created from the client.
+func (c *ConfigMapLoader) VerifStartWithInformer(
+	ctx context.Context, informerFactory informers.SharedInformerFactory, informer cache.SharedIndexInformer,
+) error {
+	return c.startInformer(ctx, informerFactory, informer, c.handleUpdate)
+}
+
+// VerifStartWithInformer is Start, except that the event handlers are
+// registered on the given informer instead of one created from the client.
+func (c *SecretLoader) VerifStartWithInformer(
+	ctx context.Context, informerFactory informers.SharedInformerFactory, informer cache.SharedIndexInformer,
+) error {
+	return c.startInformer(ctx, informerFactory, informer, c.handleUpdate)
+}
+
+// VerifWrapLoaders replaces every registered Loader by wrap(loader), keeping
+// the registration order.
+func (c *ConfigManager) VerifWrapLoaders(wrap func(Loader) Loader) {
+	for i, loader := range c.loaders {
+		c.loaders[i] = wrap(loader)
+	}
+}
